@@ -343,6 +343,41 @@ Theorem C07_sadump_sources : forall al (mem dump rest : list N) hdr_pos bs sub b
 Proof. exact sadump_sources. Qed.
 Print Assumptions C07_sadump_sources.
 
+(** disk sets: both bitmaps are read from the file that holds disk #1 (the one whose
+    partition header carries that number), wherever it stands in the order the files
+    were given, and they are that disk's bitmaps; no other file's bytes are looked at *)
+Theorem C07_sadump_sources_file :
+  forall al files nums (hdr mem dump rest : list N) hdr_pos bs sub bb db max_pfn k,
+  disk1_index nums 0 = Some k ->
+  let g := sadump_geom hdr_pos bs sub bb db in
+  file_at files k = hdr ++ mem ++ dump ++ rest ->
+  length hdr = N.to_nat (sg_mem_off g) -> length mem = N.to_nat (bs * bb) -> length dump = N.to_nat (bs * db) ->
+  wf_bytes mem -> wf_bytes dump ->
+  fst (fst (sd_file_src g k)) = k /\ fst (fst (sd_mem_src false g k)) = k /\
+  (forall orc,
+     match fst (snd (sd_set_file_regions al files g k max_pfn orc)) with
+     | ROk rs => runs_from (bit_of true dump) 0 (bs * db * 8) 0 SADUMP_PAGE true rs
+     | RNoMem _ => In false orc
+     | ROob | RFuel => False
+     end) /\
+  (forall orc,
+     match fst (snd (sd_set_mem_regions false al files g k max_pfn orc)) with
+     | ROk rs => runs_from (bit_of true mem) 0 (bs * bb * 8) 0 SADUMP_PAGE true rs
+     | RNoMem _ => In false orc
+     | ROob | RFuel => False
+     end).
+Proof. exact sadump_sources_file. Qed.
+Print Assumptions C07_sadump_sources_file.
+
+(** fetching the memory bitmap from file index 0 instead (seeded/C07-c3) reads another
+    disk as soon as disk #1 is not given first *)
+Theorem C07_sadump_mem_from_first_refuted :
+  exists files nums g k,
+    disk1_index nums 0 = Some k /\
+    sd_fetch files (sd_mem_src false g k) <> sd_fetch files (sd_mem_src true g k).
+Proof. exact sadump_mem_from_first_refuted. Qed.
+Print Assumptions C07_sadump_mem_from_first_refuted.
+
 (** ** The bridge to C01's reader models (Pfn/FmtBridge.v)
 
     Fmt/PfnModel walks a bitmap bit by bit; Pfn/BitmapModel follows the C scanners.
